@@ -100,6 +100,9 @@ def _digitize(case):
                 x = x.astype(numpy.float32).astype(numpy.float64)
             else:
                 x = xs
+            # NaN queries: numpy.digitize places NaN after every edge of increasing bins / before every edge of decreasing bins
+            # (infinite queries are refused by scikit-learn's own input validation: outside the domain)
+            x = numpy.concatenate([x, [numpy.nan]])
             bins0 = numpy.array(bins, copy=True)
             sig = "digitize2tree|%%s|%s" % direction
             try:
@@ -119,7 +122,7 @@ def _digitize(case):
             # single rows as well (batch independence of the built tree)
             if len(bins) <= 8:
                 for v in x:
-                    if tree.predict(numpy.array([[v]]))[0] != numpy.digitize(v, numpy.asarray(bins0, dtype=numpy.float64), right=True):
+                    if tree.predict(numpy.array([[v]]))[0] != numpy.digitize(numpy.array([v]), numpy.asarray(bins0, dtype=numpy.float64), right=True)[0]:
                         viol.append({"sig": sig % "differs from numpy.digitize", "msg": "single x=%r bins=%r" % (v, bins0.tolist())})
                         break
     return {"viol": viol, "nontrivial": L >= 2, "transitions": cnt, "outcome": ("dig", L)}
